@@ -37,7 +37,7 @@ package storage
 //@   ensures result == (n.isLeaf ? n.leafCells[offset].key : n.internalCells[offset].key)
 
 //@ func (n *btreeNode) isFull() bool
-//@   props C11
+//@   props C11 C12
 //@   pure
 //@   ensures result <==> (n.isLeaf ? cnt(n) >= maxLeaf : cnt(n) >= maxInternal)
 
@@ -994,11 +994,12 @@ package storage
 //@   requires slotsOK(n) && !n.isLeaf && cnt(n) <= maxInternal
 //@   ensures[total; C12] err == nil && result0 != nil && fresh(result0)
 //@   ensures[onepage; C12] bufr(result0) == 0 && bufw(result0) == 4096
+//@   ensures[kind; C12] bufdata(result0, 0) == 0
 //@   ensures[image; C12] old(intIs(n)) ==> intImage(result0, 0)
-//@   loop 1 invariant 0 <= i && i <= cnt(n) && bufr(buf) == 0 && bufw(buf) == 29 + 2*i
+//@   loop 1 invariant 0 <= i && i <= cnt(n) && bufr(buf) == 0 && bufw(buf) == 29 + 2*i && bufdata(buf,0) == 0
 //@   loop 1 invariant[hdr] old(intIs(n)) ==> intHdr(buf,0) && intOffs(buf,0,i)
 //@   loop 2 invariant 0 <= i && i <= cellCount && cellCount == cnt(n) && bufr(bufFooter) == 0 && bufw(bufFooter) == 12*i && bufFooter != buf
-//@   loop 2 invariant bufr(buf) == 0 && bufw(buf) == 29 + 2*cnt(n)
+//@   loop 2 invariant bufr(buf) == 0 && bufw(buf) == 29 + 2*cnt(n) && bufdata(buf,0) == 0
 //@   loop 2 invariant[hdr] old(intIs(n)) ==> intHdr(buf,0) && intOffs(buf,0,cnt(n)) && intCells(bufFooter, 0, i)
 
 //@ func (n *btreeNode) decodeInternal(buf *bytes.Buffer) error
@@ -1061,11 +1062,12 @@ package storage
 //@   requires slotsOK(n) && n.isLeaf && cnt(n) <= maxLeaf && sizesOK(n) && (forall i int :: 0 <= i && i < cnt(n) ==> len(lc(n,i).valueBytes) <= maxValue)
 //@   ensures[total; C12] err == nil && result0 != nil && fresh(result0)
 //@   ensures[onepage; C12] bufr(result0) == 0 && bufw(result0) == 4096
+//@   ensures[kind; C12] bufdata(result0, 0) == 1
 //@   ensures[image; C12] old(leafIs(n)) ==> leafImage(result0, 0)
-//@   loop 1 invariant 0 <= i && i <= cnt(n) && bufr(buf) == 0 && bufw(buf) == 39 + 2*i
+//@   loop 1 invariant 0 <= i && i <= cnt(n) && bufr(buf) == 0 && bufw(buf) == 39 + 2*i && bufdata(buf,0) == 1
 //@   loop 1 invariant[hdr] old(leafIs(n)) ==> leafHdr(buf,0) && leafOffs(buf,0,i)
 //@   loop 2 invariant 0 <= i && i <= cellCount && cellCount == cnt(n) && bufr(bufFooter) == 0 && 0 <= bufw(bufFooter) && bufw(bufFooter) <= 409*i && bufFooter != buf
-//@   loop 2 invariant bufr(buf) == 0 && bufw(buf) == 39 + 2*cnt(n)
+//@   loop 2 invariant bufr(buf) == 0 && bufw(buf) == 39 + 2*cnt(n) && bufdata(buf,0) == 1
 //@   loop 2 invariant[hdr] old(leafIs(n)) ==> leafHdr(buf,0) && leafOffs(buf,0,cnt(n))
 //@   loop 2 invariant[cells] old(leafIs(n)) ==> bufw(bufFooter) == alPos(i) && leafCellsAt(bufFooter, 0, i)
 
@@ -1088,3 +1090,38 @@ package storage
 //@              n.leafCells[alOff(j)].valueSize == alSize(j) && len(n.leafCells[alOff(j)].valueBytes) == alSize(j) && allocated(n.leafCells[alOff(j)].valueBytes) &&
 //@              (forall k int :: 0 <= k && k < alSize(j) ==> n.leafCells[alOff(j)].valueBytes[k] == alVal(j,k))
 //@   loop 2 invariant[hdr] n.fileOffset == alFileOffset() && n.lastLSN == alLSN() && n.hasLSib == alHasL() && n.hasRSib == alHasR() && n.lSibFileOffset == alLSib() && n.rSibFileOffset == alRSib()
+
+// A node the codec can represent: within capacity, every slot names a cell below the slot count, value sizes consistent and within the limit.
+//@ spec pred encodable(n *btreeNode) { slotsOK(n) && distinctOffsets(n) && (forall i int :: 0 <= i && i < cnt(n) ==> n.offsets[i] < cnt(n)) &&
+//@        (n.isLeaf ? cnt(n) <= maxLeaf && sizesOK(n) && (forall i int :: 0 <= i && i < cnt(n) ==> len(lc(n,i).valueBytes) <= maxValue) : cnt(n) <= maxInternal) }
+
+//@ func (n *btreeNode) encode() (*bytes.Buffer, error)
+//@   props C12 C16
+//@   requires encodable(n)
+//@   ensures[total; C12] err == nil && result0 != nil && fresh(result0)
+//@   ensures[onepage; C12] bufr(result0) == 0 && bufw(result0) == 4096
+//@   ensures[kind; C12] bufdata(result0, 0) == (n.isLeaf ? 1 : 0)
+//@   ensures[image; C12] (n.isLeaf && old(leafIs(n)) ==> leafImage(result0, 0)) && (!n.isLeaf && old(intIs(n)) ==> intImage(result0, 0))
+
+//@ func (n *btreeNode) decode(buf *bytes.Buffer) error
+//@   props C12 C16
+//@   requires buf != nil && len(n.offsets) == 0 && cap(n.offsets) == 0 && bufw(buf) - bufr(buf) >= 4096
+//@   requires n.isLeaf ? alWF() && leafImage(buf, bufr(buf)) : aiWF() && intImage(buf, bufr(buf))
+//@   modifies n.fileOffset, n.lastLSN, n.hasLSib, n.hasRSib, n.lSibFileOffset, n.rSibFileOffset, n.rightOffset, n.offsets, n.freeSize, n.leafCells, n.internalCells, bufr(buf), bufver(buf)
+//@   ensures[total; C12] result == nil && bufr(buf) == old(bufr(buf)) + 4096
+//@   ensures[content; C12] n.isLeaf == old(n.isLeaf) && (n.isLeaf ? leafIs(n) : intIs(n))
+//@   ensures[shape; C12] n.isLeaf ? len(n.leafCells) == alCnt() && (forall i int :: 0 <= i && i < alCnt() ==> lc(n,i) != nil) : len(n.internalCells) == aiCnt() && (forall i int :: 0 <= i && i < aiCnt() ==> ic(n,i) != nil)
+
+// Round trip: a node that encodes to the image of the abstract page and a node decoded from that image have the same logical content,
+// and the abstract page of an encodable node satisfies what decode requires.
+//@ spec pred sameLeaf(n *btreeNode, m *btreeNode) { n.fileOffset == m.fileOffset && n.lastLSN == m.lastLSN && n.hasLSib == m.hasLSib && n.hasRSib == m.hasRSib &&
+//@        n.lSibFileOffset == m.lSibFileOffset && n.rSibFileOffset == m.rSibFileOffset && cnt(n) == cnt(m) &&
+//@        (forall i int :: 0 <= i && i < cnt(n) ==> n.offsets[i] == m.offsets[i] && lc(n,i).key == lc(m,i).key && lc(n,i).deleted == lc(m,i).deleted &&
+//@            lc(n,i).valueSize == lc(m,i).valueSize && len(lc(n,i).valueBytes) == len(lc(m,i).valueBytes) &&
+//@            (forall k int :: 0 <= k && k < len(lc(n,i).valueBytes) ==> lc(n,i).valueBytes[k] == lc(m,i).valueBytes[k])) }
+//@ spec pred sameInt(n *btreeNode, m *btreeNode) { n.fileOffset == m.fileOffset && n.lastLSN == m.lastLSN && n.rightOffset == m.rightOffset && cnt(n) == cnt(m) &&
+//@        (forall i int :: 0 <= i && i < cnt(n) ==> n.offsets[i] == m.offsets[i] && ic(n,i).key == ic(m,i).key && ic(n,i).fileOffset == ic(m,i).fileOffset) }
+//@ lemma[C12] rtLeaf: forall n, m *btreeNode :: leafIs(n) && leafIs(m) ==> sameLeaf(n, m)
+//@ lemma[C12] rtInt: forall n, m *btreeNode :: intIs(n) && intIs(m) ==> sameInt(n, m)
+//@ lemma[C12] wfLeaf: forall n *btreeNode :: n.isLeaf && encodable(n) && leafIs(n) ==> alWF()
+//@ lemma[C12] wfInt: forall n *btreeNode :: !n.isLeaf && encodable(n) && intIs(n) ==> aiWF()
